@@ -47,7 +47,7 @@ def shapes(tier):
     out = []
     for N in ((2, 3) if tier == "quick" else (2, 3, 4, 5)):
         for nb in (None, 1, 3):
-            out.append({"entry": "rejection", "N": N, "src": "filename", "in_memory": False, "n_batches": nb, "pool": 2 if nb is None else 1, "randomize": nb != 1, "full": nb == 3})
+            out.append({"entry": "rejection", "N": N, "src": "filename", "in_memory": False, "n_batches": nb, "pool": 1 if nb == 3 else 2, "randomize": nb != 1, "full": nb == 3})
             out.append({"entry": "rejection", "N": N, "src": "object", "in_memory": nb == 1, "n_batches": nb, "pool": 1, "randomize": False})
         out.append({"entry": "rejection", "N": N, "src": "count", "in_memory": False, "n_batches": None, "pool": 1, "randomize": False})
         out.append({"entry": "rejection", "N": N, "src": "count", "in_memory": True, "n_batches": None, "pool": 1, "randomize": False})
@@ -124,6 +124,12 @@ def run_shape(shape, tier):
             uses = [(e[1], e[2]) for e in w.log if e[0] == "mvn"]
             sink.check(path, "draw_streams_distinct", core.SB(z3.BoolVal(len(set(uses)) == len(uses))), site=shape["entry"] + ".child_streams",
                        describe=lambda m: {"mvn_uses": [[list(map(str, k)), p] for k, p in uses][:16]})
+            # (d) no position of any stream is consumed twice (a multi-process pool hands workers COPIES of the generators
+            #     in their tasks: a worker drawing from a copy of the sampler's own generator leaves the original behind)
+            alld = [(e[1], e[2]) for e in w.log if e[0] == "draw"]
+            dup = sorted({d for d in alld if alld.count(d) > 1}, key=str)
+            sink.check(path, "no_stream_position_reused", core.SB(z3.BoolVal(not dup)), site=shape["entry"] + ".pickled_generators",
+                       describe=lambda m: {"reused": [[list(map(str, k)), p] for k, p in dup][:8]})
         finally:
             core.Ctx.cur = None
     res["twin_ok"] = twin
@@ -142,6 +148,7 @@ def _prior_sample_shape(shape, res, sink):
     def draw(vars, draws=1, random_seed=None, **kw):
         rec["draw_seed"] = random_seed
         rec["draws"] = draws
+        rec.setdefault("orders", []).append([v.name for v in vars])
         return [symnp.SymArray(symnp._obj([core.fresh("real", "d") for _ in range(int(draws))]), symnp._F8) for _ in vars]
     pm.draw = draw
 
@@ -157,41 +164,52 @@ def _prior_sample_shape(shape, res, sink):
     st = stack.Stack(world=w, load=("prior_helpers", "likelihood_helpers", "samples"),
                      extra_shims={"pymc": pm, "pytensor.tensor": pt, "thejoker.units": types.SimpleNamespace(UNIT_ATTR_NAME="__tensor_unit__")})
     st.shims["pytensor"] = types.SimpleNamespace(__version__="3.3.2", tensor=pt)
-    st.load("prior")
+    # sets iterate in an order that depends on the interpreter's hash seed: every order is explored (symx.loader.AdvSet)
+    st.load("prior", transform=loader.adversarial_sets, extra={"set": loader.AdvSet})
     JP = st.prior.JokerPrior
 
     def harness():
         w.reset()
+        rec["orders"] = []
         p = object.__new__(JP)
-        names = ["P", "e", "omega", "M0", "s"]
+        names = ["P", "e", "omega", "M0", "s", "K", "v0", "v1", "dv0_1"]
+        kms = units.km / units.s
         p.pars = {}
-        for nm, un in zip(names, [units.day, units.one, units.rad, units.rad, units.km / units.s]):
+        for nm, un in zip(names, [units.day, units.one, units.rad, units.rad, kms, kms, kms, kms / units.day, kms]):
             v = types.SimpleNamespace(name=nm)
             setattr(v, "__tensor_unit__", un)
             p.pars[nm] = v
-        p.poly_trend, p._v_trend_names = 1, ["v0"]
-        p.v0_offsets = []
+        p.poly_trend, p._v_trend_names = 2, ["v0", "v1"]
+        p.v0_offsets = [p.pars["dv0_1"]]
         p._nonlinear_equiv_units = st.prior_helpers.get_nonlinear_equiv_units()
-        p._linear_equiv_units = st.prior_helpers.get_linear_equiv_units(1)
-        p._v0_offsets_equiv_units = {}
+        p._linear_equiv_units = st.prior_helpers.get_linear_equiv_units(2)
+        p._v0_offsets_equiv_units = st.prior_helpers.get_v0_offsets_equiv_units(1)
         rng = env.SymRng(w)
         s1 = p.sample(size=2, rng=rng)
         seed1 = rec.get("draw_seed")
         s2 = p.sample(size=2, return_logprobs=True, rng=rng)
         seed2 = rec.get("draw_seed")
-        return rng, seed1, seed2
+        s3 = p.sample(size=2, generate_linear=True, rng=rng)
+        seed3 = rec.get("draw_seed")
+        return rng, seed1, seed2 if seed3 is seed2 else None, [list(o) for o in rec["orders"]], [list(x.tbl.colnames) for x in (s1, s2, s3)]
 
     ex = core.Explorer(max_paths=200)
     twin = False
+    seen = {}
     for path in ex.paths(harness):
         r, _, _ = path.check(core.SB(z3.BoolVal(False)))
         twin = twin or r == "sat"
         if path.raised is not None:
             sink.check(path, "prior_sample.no_exception", core.SB(z3.BoolVal(False)), site="JokerPrior.sample", describe=lambda m: {"raised": repr(path.raised)[:300]})
             continue
-        rng, s1, s2 = path.result
+        rng, s1, s2, orders, cols = path.result
         sink.check(path, "prior_sample_forwards_rng", core.SB(z3.BoolVal(s1 is rng and s2 is rng and not w.global_random_touched)),
                    site="JokerPrior.sample", describe=lambda m: {"seed_passed": repr(s1)[:80]})
+        # the order in which the variables are handed to pm.draw fixes which sub-stream each one gets: it must not depend on
+        # anything but the prior (in particular not on the iteration order of a set, which changes with PYTHONHASHSEED)
+        first = seen.setdefault("orders", (orders, cols))
+        sink.check(path, "draw_order_is_a_function_of_the_prior", core.SB(z3.BoolVal(first == (orders, cols))), site="JokerPrior.sample.order",
+                   describe=lambda m: {"orders": orders, "first_path": first[0]})
     res["twin_ok"] = twin
     fill_explorer(res, ex)
     return res
@@ -251,6 +269,29 @@ def replay(cand):
             b = prior.sample(size=8, rng=np.random.default_rng(7))
             if not all(np.array_equal(a[k].value, b[k].value) for k in a.par_names):
                 bad.append("prior.sample(rng=seed 7) is not reproducible")
+            # equal seed in separate interpreter processes (different str hash seeds)
+            import subprocess
+            import sys
+            code = ("import warnings; warnings.simplefilter('ignore')\n"
+                    "import hashlib, numpy as np, astropy.units as u, pymc as pm, thejoker as tj, thejoker.units as xu\n"
+                    "with pm.Model():\n"
+                    "    dv = xu.with_unit(pm.Normal('dv0_1', 0.0, 4.0), u.km / u.s)\n"
+                    "    prior = tj.JokerPrior.default(P_min=2 * u.day, P_max=50 * u.day, sigma_K0=30 * u.km / u.s, sigma_v=[50 * u.km / u.s, 1 * u.km / u.s / u.day], poly_trend=2, v0_offsets=[dv])\n"
+                    "s = prior.sample(size=8, generate_linear=True, rng=np.random.default_rng(42))\n"
+                    "h = hashlib.sha256()\n"
+                    "for k in sorted(s.par_names):\n"
+                    "    h.update(np.ascontiguousarray(s[k].value).tobytes())\n"
+                    "print('DIGEST', h.hexdigest())\n")
+            digests = []
+            for hs in ("1", "3", "4"):
+                envv = dict(os.environ, PYTHONHASHSEED=hs)
+                out = subprocess.run([sys.executable, "-c", code], env=envv, capture_output=True, text=True, timeout=600, cwd=os.environ.get("VERIF_REPO", "/repo"))
+                dg = [ln.split()[1] for ln in out.stdout.splitlines() if ln.startswith("DIGEST")]
+                if not dg:
+                    return {"reproduced": False, "error": "subprocess failed: %s" % out.stderr[-300:]}
+                digests.append(dg[0])
+            if len(set(digests)) != 1:
+                bad.append("prior.sample(generate_linear=True, rng=default_rng(42)) is not bit-identical between interpreter processes (PYTHONHASHSEED 1/3/4)")
             return {"reproduced": bool(bad), "detail": "; ".join(bad) or "reproducible"}
         rnd = np.random.default_rng(3)
         t = 56000 + np.sort(rnd.uniform(0, 60, 6))
@@ -309,6 +350,33 @@ def replay(cand):
             fa, fb = flat(a[i]), flat(b[i])
             if len(fa) != len(fb) or any(x.shape != y.shape or not np.array_equal(x, y) for x, y in zip(fa, fb)):
                 bad.append("call %d: equal seeds give different outputs when only the global random state differs" % (i + 1))
+        import thejoker.thejoker as _tjm
+        if shape.get("pool", 1) > 1 and not shape["in_memory"] and type(_tjm.CJokerHelper).__name__ != "function":
+            # equal seed and batching on a serial and on a 2-process pool, two successive calls
+            def run_pool(pool, kmax=None):
+                joker = tj.TheJoker(prior, rng=np.random.default_rng(42), pool=pool)
+                src = {"filename": fn, "object": lib, "count": 96}[shape["src"]]
+                nb = 4 if shape["n_batches"] == 3 else (shape["n_batches"] or 2)     # equal, explicit batching on both pools
+                outs = []
+                for call in range(2):
+                    if entry == "rejection":
+                        outs.append(joker.rejection_sample(data, src, n_linear_samples=2, n_batches=nb, randomize_prior_order=shape["randomize"],
+                                                           max_posterior_samples=kmax))
+                    elif entry == "iterative":
+                        outs.append(joker.iterative_rejection_sample(data, src, n_requested_samples=4, n_linear_samples=1, n_batches=nb,
+                                                                     randomize_prior_order=shape["randomize"], init_batch_size=16))
+                    else:
+                        outs.append(joker.marginal_ln_likelihood(data, src, n_batches=nb))
+                return outs
+            # (kmax=1: fewer accepted samples than batches, i.e. the posterior stage runs as a single task)
+            for kmax in ((None, 1) if entry == "rejection" else (None,)):
+                sa = run_pool(schwimmbad.SerialPool(), kmax)
+                with schwimmbad.MultiPool(2) as mpool:
+                    sb = run_pool(mpool, kmax)
+                for i in range(2):
+                    fa, fb = flat(sa[i]), flat(sb[i])
+                    if len(fa) != len(fb) or any(x.shape != y.shape or not np.array_equal(x, y) for x, y in zip(fa, fb)):
+                        bad.append("call %d (max_posterior_samples=%r): equal seed and batching give different outputs on SerialPool and MultiPool(2)" % (i + 1, kmax))
         if entry != "marginal":
             K = np.concatenate([np.asarray(o["K"].value) for o in a])
             if len(np.unique(K)) != len(K):
